@@ -14,6 +14,10 @@ from mc.streams import UBX_ERRORS
 from pyubx2 import UBXReader, UBXMessage
 
 PROP = "C01"
+import pyubx2 as _pkg  # noqa: E402
+
+EVAL_NS = dict(vars(_pkg))  # whatever names repr() may use from the package namespace
+EVAL_NS["pyubx2"] = _pkg
 
 
 def judge(cid, payload, mode, pbf):
@@ -43,7 +47,7 @@ def judge(cid, payload, mode, pbf):
     except Exception as e:  # noqa: BLE001
         out.append((f"accessor_raises|{site}|{type(e).__name__}", str(e)))
     try:
-        m2 = eval(repr(msg), {"UBXMessage": UBXMessage})  # pylint: disable=eval-used
+        m2 = eval(repr(msg), EVAL_NS)  # pylint: disable=eval-used
         if m2.serialize() != frame:
             out.append((f"eval_repr_differs|{site}", f"repr={repr(msg)[:100]}"))
     except Exception as e:  # noqa: BLE001
